@@ -1,9 +1,91 @@
-(* C13 -- property theorems only: statement + exact + Print Assumptions. *)
+(* C13 -- property theorems only: statement + exact + Print Assumptions.
+   run c hs     = the world after the history hs (caller actions and calls) on destination
+                  manager c (cfg_tj = jdatadst-tj.c as read from the source, cfg_ijg = jdatadst.c)
+   w_ok         = no misuse by the caller and no hazard (address recycling, *jpegSize = 0 on reuse)
+   lib_clean    = the library performed no write outside a live block, no over-read, no free of a
+                  dead / caller-allocated / handed-over block
+   chunks_ok    = every chunk stored through the jchuff.c STORE_BUFFER protocol is < BUFSIZE bytes *)
 From Coq Require Import List ZArith.
-From LJT Require Import model.Dest.
+From LJT Require Import gen.GenDest model.Dest proofs.DestProofs.
 Import ListNotations.
 Local Open Scope Z_scope.
 
-Theorem C13_placeholder : lib_clean (run cfg_tj [HCall true [PByte 1]]) = true.
-Proof. vm_compute. reflexivity. Qed.
-Print Assumptions C13_placeholder.
+(* (1) for ALL producers and ALL histories (initial capacities NULL, 0, 1, exactly full, reuse ...) *)
+Theorem C13_never_overruns : forall c hs, good_cfg c ->
+  w_ok (run c hs) = true -> forallb hop_chunks_ok hs = true ->
+  forall e, In e (h_log (w_heap (run c hs))) ->
+    (forall id off, e <> LBad (BadOverrun id off)) /\ (forall id n, e <> LBad (BadOverRead id n)).
+Proof. exact never_overruns_all. Qed.
+Print Assumptions C13_never_overruns.
+
+(* (2) NOREALLOC after any history: same buffer, no heap event, success with size < capacity
+       holding exactly the produced bytes, or the buffer-size error *)
+Theorem C13_norealloc_contract : forall hs ops,
+  w_ok (run cfg_tj (hs ++ [HCall false ops])) = true ->
+  forallb hop_chunks_ok hs = true -> forallb chunk_ok ops = true ->
+  let w := run cfg_tj hs in
+  match run_call_st cfg_tj false ops w with
+  | (w', st) =>
+      run cfg_tj (hs ++ [HCall false ops]) = w' /\
+      lib_clean w' = true /\ w_buf w' = w_buf w /\ skel (w_heap w') = skel (w_heap w) /\
+      ((st = StOk /\ w_size w' < w_size w /\ w_size w' = Z.of_nat (length (bytes_of ops)) /\
+        contents (w_heap w') (w_buf w') (w_size w') = bytes_of ops) \/
+       st = StBufSize \/
+       (st = StAbort /\ forallb no_abort ops = false))
+  end.
+Proof. exact norealloc_contract_all. Qed.
+Print Assumptions C13_norealloc_contract.
+
+(* (3) reallocation enabled (TurboJPEG) or jpeg_mem_dest, after any history, any initial buffer:
+       the call succeeds and (pointer, size) holds exactly the produced bytes in order *)
+Theorem C13_realloc_contract : forall c hs alloc ops, good_cfg c -> eff_alloc c alloc = true ->
+  w_ok (run c (hs ++ [HCall alloc ops])) = true ->
+  forallb hop_chunks_ok hs = true -> forallb chunk_ok ops = true -> forallb no_abort ops = true ->
+  let w' := run c (hs ++ [HCall alloc ops]) in
+  snd (run_call_st c alloc ops (run c hs)) = StOk /\
+  lib_clean w' = true /\
+  w_size w' = Z.of_nat (length (bytes_of ops)) /\
+  contents (w_heap w') (w_buf w') (w_size w') = bytes_of ops.
+Proof. exact realloc_contract_all. Qed.
+Print Assumptions C13_realloc_contract.
+
+(* (4) reuse: no double free, no free of a caller-owned or handed-over block, for every history *)
+Theorem C13_reuse_safe : forall c hs, good_cfg c ->
+  w_ok (run c hs) = true -> forallb hop_chunks_ok hs = true -> lib_clean (run c hs) = true.
+Proof. exact reuse_safe_all. Qed.
+Print Assumptions C13_reuse_safe.
+
+(* the two destination managers of the tree are instances (cfg_tj reads the F2 rule from the source) *)
+Theorem C13_instances : good_cfg cfg_tj /\ good_cfg cfg_ijg.
+Proof. exact (conj good_tj good_ijg). Qed.
+Print Assumptions C13_instances.
+
+(* F2: the rule before the fix is refuted by the regression history, the current rule passes it *)
+Theorem C13_reuse_safe_old_rule_refuted :
+  forallb hop_chunks_ok hist_f2 = true /\
+  verdict (run cfg_tj_old hist_f2) = (true, [], Some (BadDoubleFree 2)) /\
+  verdict (run cfg_tj hist_f2) = (true, [], None).
+Proof. exact old_rule_double_free. Qed.
+Print Assumptions C13_reuse_safe_old_rule_refuted.
+
+(* the two hypotheses hidden in w_ok cannot be dropped: each is refuted on the CURRENT rule *)
+Theorem C13_reuse_safe_recycled_address_refuted :
+  verdict (run cfg_tj hist_aba) = (false, [NRecycled], Some (BadOverrun 2 100)).
+Proof. exact aba_overrun. Qed.
+Print Assumptions C13_reuse_safe_recycled_address_refuted.
+
+Theorem C13_reuse_safe_zero_size_refuted :
+  verdict (run cfg_tj hist_zero) = (false, [NZeroReuse], Some (BadOverrun 3 4096)).
+Proof. exact zero_size_reuse_overrun. Qed.
+Print Assumptions C13_reuse_safe_zero_size_refuted.
+
+(* the producer hypothesis is sharp: a directly stored chunk of exactly BUFSIZE bytes overruns *)
+Theorem C13_chunk_bound_sharp :
+  verdict (run cfg_tj hist_512) = (true, [], Some (BadOverrun 1 4096)).
+Proof. exact exact_bufsize_chunk_overruns. Qed.
+Print Assumptions C13_chunk_bound_sharp.
+
+(* (5) ICC overhead *)
+Theorem C13_icc_extra : forall len, 0 <= len -> icc_bytes len = len + 18 * ((len + 65518) / 65519).
+Proof. exact icc_extra_all. Qed.
+Print Assumptions C13_icc_extra.
